@@ -94,6 +94,8 @@ def apply_set_attr(obj, idx, attr, cls=None):
 def gen_plan(rng, run_index, tier, opts):
     env = specs.Env(rng, max_T=36)
     env.allow_date_only_zone = True
+    if rng.random() < 0.12:
+        env.freqs = ["MS", "W-MON"]        # calendar grids (the grid's frequency string goes through the JSON too)
     w = env.world
     g0 = specs.gen_grid(env)
     f0 = w["grids"][g0]["freq"]
@@ -103,7 +105,7 @@ def gen_plan(rng, run_index, tier, opts):
     other_tz = rng.choice(["CET", "UTC"]) if tz0 is None else None
     gp = specs.gen_grid(env, freq=f0, tz=other_tz)
     probes.append(gp)
-    f2 = rng.choice([f for f in ["h", "4h", "d", "15min"] if f != f0])
+    f2 = rng.choice([f for f in ["h", "4h", "d", "15min"] if f != f0]) if f0 not in specs.CAL_FREQS else "d"
     probes.append(specs.gen_grid(env, freq=f2, tz=tz0))
     mip = rng.random() < 0.5
     P = specs.gen_portfolio(env, grid_freq=f0, mip_ok=mip, n_assets=rng.randint(1, 4))
